@@ -109,6 +109,9 @@ def install_integer(reg):
 
 
 def key_base_registry():
+    # path-pruning budget of the key areas: see ecc_common.ecc_registry (non-linear RSA / DSA conditions make satisfiable feasibility
+    # queries slow; a query that times out counts as feasible, so this changes run time only)
+    _i.FEAS_TIMEOUT_MS = min(_i.FEAS_TIMEOUT_MS, 80)
     reg = base_registry()
     install_integer(reg)
     return reg
